@@ -31,10 +31,12 @@ try:
                 if rc != 0:
                     res[pp] = {"exit": rc, "first": first}
         os.makedirs(dst, exist_ok=True)
-        open(dst + "/patch.diff", "w").write(run(f"git -C {wt} diff HEAD").stdout)
-        shutil.copy(src + "/equiv.py", dst)
-        if os.path.exists(src + "/notes.md"):
-            shutil.copy(src + "/notes.md", dst)
+        newpatch = run(f"git -C {wt} diff HEAD").stdout
+        open(dst + "/patch.diff", "w").write(newpatch)
+        if os.path.realpath(src) != os.path.realpath(dst):
+            shutil.copy(src + "/equiv.py", dst)
+            if os.path.exists(src + "/notes.md"):
+                shutil.copy(src + "/notes.md", dst)
         json.dump({"name": name, "verified": {"base_commit": run("git -C /repo rev-parse --short HEAD").stdout.strip(), "suite": suite,
                    "equiv_sha256": hashlib.sha256(c.stdout.encode()).hexdigest(), "equiv_identical": True},
                    "checks_not_silent": res}, open(dst + "/meta.json", "w"), indent=1)
